@@ -562,6 +562,20 @@ def eval_sylvester_kpm(seed):
                 solve = impl_bd.solve_sylvester_KPM(h0_arg, vecs, solver_options=dict(p["opts"]))
         except Exception as e:
             return ["solve_sylvester_KPM raised %s: %s" % (type(e).__name__, e)], p
+        try:
+            if solve(zero, (0, nb)) is not zero:
+                fails.append("solve_sylvester_KPM does not map the zero sentinel to zero")
+            for i in range(nb):  # explicit-explicit blocks go through the diagonal solver
+                for j in range(nb):
+                    Ei_, Ej_ = np.array(p["levels"][offs[i]:offs[i + 1]]), np.array(p["levels"][offs[j]:offs[j + 1]])
+                    Yd = rand_c(rs, (sizes[i], sizes[j]), p["cplx"])
+                    Vd = np.asarray(solve(Yd.copy(), (i, j)))
+                    dE = Ei_[:, None] - Ej_[None, :]
+                    mask = np.abs(dE) > 1e-3
+                    if not (np.allclose((dE * Vd)[mask], Yd[mask], rtol=1e-9, atol=1e-9) and np.abs(Vd[~mask]).max(initial=0) == 0):
+                        fails.append("solve_sylvester_KPM explicit block (%d,%d): (E_a - E_b) V_ab != Y_ab" % (i, j))
+        except Exception as e:
+            fails.append("solve_sylvester_KPM explicit blocks / zero raised %s: %s" % (type(e).__name__, e))
         for i in range(nb):
             Ei = np.array(p["levels"][offs[i]:offs[i + 1]])
             Y = rand_c(rs, (sizes[i], n), p["cplx"]) @ P
@@ -834,6 +848,8 @@ def eval_float_problem(p, rs):
             return fails + ["solve_sylvester_direct raised %s: %s" % (type(e).__name__, e)]
         nb = len(sizes)
         HBB = Pfull @ h0 @ Pfull
+        if solve(zero, (0, nb)) is not zero:
+            fails.append("solve_sylvester_direct does not map the zero sentinel to zero")
         for i in range(nb):
             Hii = np.diag(p["levels"][offs[i]:offs[i + 1]])
             # right-implicit: Y (k_i x n), V = solve(Y, (i, nb)):  H_ii V - V H_BB = Y Pfull
